@@ -81,6 +81,12 @@ Definition subset_N (a b : list N) : bool := forallb (fun x => mem_N x b) a.
 Definition same_name_set (P : params) (a b : config) : bool :=
   subset_N (names P a) (names P b) && subset_N (names P b) (names P a).
 
+(* ... with multiplicities: a configuration that lists a runnable twice is a multiset of identities;
+   [a;a;b] and [a;b;b] have the same set but are different configurations (the runnables "each once"
+   of C09).  For duplicate-free configurations this is [same_name_set]. *)
+Definition same_members (P : params) (a b : config) : bool :=
+  Nat.eqb (length a) (length b) && all_taken (names P b) (names P a).
+
 (* ------------------------------------------------------------------ C10 *)
 
 Definition user_leaves (x : err) : list N := sort_N (filter (fun l => N.leb 2 l) (leaves x)).
@@ -165,7 +171,7 @@ Definition check_reload (P : params) (k : nat) (cur : config) (w : list event) (
     match find_cb w with
     | None => 11%N                                      (* callback not consulted *)
     | Some (CbSome nc) =>
-      if same_name_set P cur nc then
+      if same_members P cur nc then
         if existsb (fun e => match e with
                              | ERunCall _ | ERunRet _ _ | EStopCall _ | EStopRet _ => true
                              | _ => false end) w
